@@ -169,7 +169,9 @@ func (j *jsonWriter) ByteString(tag int, str []byte) {
 func (j *jsonWriter) DateTime(tag int, date time.Time) {
 	j.encodeAppend(TypeDateTime, tag, func(b []byte) []byte {
 		b = append(b, '"')
-		b = date.AppendFormat(b, time.RFC3339)
+		// Always in UTC: a date-time read back would otherwise be written differently when
+		// the local time zone is not UTC (and year 9999 could become year 10000).
+		b = date.UTC().AppendFormat(b, time.RFC3339)
 		return append(b, '"')
 	})
 }
